@@ -103,9 +103,7 @@ def fp_input(ctx, name, sample=(0.1, 2.0)):
     """a symbolic IEEE double input (any value, including NaN/inf, unless constrained by assumptions)"""
     if ctx.mode == "concrete":
         if name not in ctx.values:
-            if ctx.rng is None:
-                raise core.VkError("concrete run lacks a value for input %s" % name)
-            ctx.values[name] = float(ctx.rng.uniform(*sample))
+            ctx.values[name] = float(ctx.rng.uniform(*sample)) if ctx.rng is not None else 0.5 * (sample[0] + sample[1])
         ctx.input_order.append(name)
         return float(ctx.values[name])
     v = z3.FP(name, F64)
